@@ -224,7 +224,12 @@ pub fn classify(d: &Decl, tokens: &[String]) -> Shape {
 }
 
 pub fn judge(d: &Decl, c: &LineCase, reply: &Value) -> Result<Shape, (String, String)> {
-    let what = format!("declaration d{} line {:?}", d.id, c.line);
+    let what = format!(
+        "declaration d{} line {:?}{}",
+        d.id,
+        c.line,
+        ["", " (submitted once, recalled with Up, Enter again)", " (second half typed first, first half inserted in front of it)", " (a stray character typed and erased in the middle)"][reply["route"].as_u64().unwrap_or(0) as usize % 4]
+    );
     if let Some(p) = reply.get("panic").and_then(|p| p.as_str()) {
         return Err((format!("{}: no panic", what), p.to_string()));
     }
